@@ -14,6 +14,8 @@ import (
 	"errors"
 	"fmt"
 	"go/types"
+	"io"
+	"io/fs"
 	"iter"
 	"os"
 	"os/exec"
@@ -181,6 +183,7 @@ func (g *newer) New(c gengo.Context) gengo.Generator {
 	calls = append(calls, Call{Seq: len(calls), Kind: "new", Gen: g.script.Name, Pkg: c.Package("").Pkg().Path(), Instance: n.st.instance()})
 	return n
 }
+
 // newDefer: the callback a GeneratorNewer registers from inside New
 func newDefer(c gengo.Context, s *Script, st *state) {
 	if len(s.NewDefer) == 0 {
@@ -477,6 +480,20 @@ func toErr(kind string, where string) error {
 		return errInjected
 	case "wraperror":
 		return fmt.Errorf("at %s: %w", where, errInjected)
+	// failures of the generator's own that wrap well-known sentinel errors (a time-out of its own context, a file it could not read):
+	// to gengo they are errors like any other
+	case "wrap:canceled":
+		return fmt.Errorf("at %s: lookup gave up: %w", where, context.Canceled)
+	case "wrap:deadline":
+		return fmt.Errorf("at %s: lookup timed out: %w", where, context.DeadlineExceeded)
+	case "wrap:eof":
+		return fmt.Errorf("at %s: reading schema: %w", where, io.EOF)
+	case "wrap:notexist":
+		return fmt.Errorf("at %s: %w", where, &fs.PathError{Op: "open", Path: "schema.json", Err: fs.ErrNotExist})
+	case "join:canceled":
+		return errors.Join(fmt.Errorf("at %s: %w", where, errInjected), context.Canceled)
+	case "bare:deadline":
+		return context.DeadlineExceeded
 	case "exit":
 		os.Exit(3)
 	case "kill":
